@@ -57,6 +57,9 @@ struct State {
     keep_data: bool,
     /// turn fsync into a recorded no-op (keeps big runs fast; the order is what matters)
     skip_fsync: bool,
+    /// fsync calls seen since `start`; (first failing fsync, how many in a row, errno)
+    fsync_seen: u64,
+    fsync_burst: Option<(u64, u32, i32)>,
 }
 
 /// Optional callback invoked by the calling thread right BEFORE a mutating call on a watched file is
@@ -117,6 +120,12 @@ pub fn take_calls() -> Vec<Call> {
 
 pub fn mutating_seen() -> u64 {
     with(|s| s.mutating_seen)
+}
+
+/// The fsync with 0-based index `first` (counted over the watched directory since `start`) and the `count - 1`
+/// fsync calls after it fail: a device that keeps refusing to sync, however often the call is repeated.
+pub fn fail_fsync_burst(first: u64, count: u32, errno: i32) {
+    with(|s| s.fsync_burst = Some((first, count, errno)));
 }
 
 pub fn set_skip_fsync(b: bool) {
@@ -285,6 +294,13 @@ unsafe fn do_open(real: OpenFn, path: *const c_char, flags: c_int, mode: mode_t)
             return -1;
         }
     }
+    if kind == "open_ro" && file.ends_with(".bitcask.data") && inject_read_open_failure() {
+        // a read path fault (out of descriptors): the open of a data file for reading fails
+        let e = READ_OPEN_ERRNO.load(std::sync::atomic::Ordering::SeqCst);
+        record(kind, file, flags, 0, vec![], -1, e, true);
+        set_errno(e);
+        return -1;
+    }
     let fd = real(path, flags, mode);
     let e = if fd < 0 { get_errno() } else { 0 };
     if fd >= 0 {
@@ -417,6 +433,19 @@ unsafe fn do_sync(name: &'static str, f: unsafe extern "C" fn(c_int) -> c_int, f
         set_errno(e);
         return -1;
     }
+    let burst = with(|s| {
+        let idx = s.fsync_seen;
+        s.fsync_seen += 1;
+        match s.fsync_burst {
+            Some((first, count, e)) if idx >= first && idx < first + count as u64 => Some(e),
+            _ => None,
+        }
+    });
+    if let Some(e) = burst {
+        record("fsync", file, 0, 0, vec![], -1, e, true);
+        set_errno(e);
+        return -1;
+    }
     let skip = with(|s| s.skip_fsync);
     let r = if skip { 0 } else { f(fd) };
     let e = if r < 0 { get_errno() } else { 0 };
@@ -526,6 +555,26 @@ pub unsafe extern "C" fn rename(from: *const c_char, to: *const c_char) -> c_int
         set_errno(e);
     }
     r
+}
+
+// ---------------------------------------------------------------------------------------
+// read path: the next n read-only opens of a data file in the watched directory fail with the given errno
+
+static READ_OPEN_FAILS: std::sync::atomic::AtomicU32 = std::sync::atomic::AtomicU32::new(0);
+static READ_OPEN_ERRNO: std::sync::atomic::AtomicI32 = std::sync::atomic::AtomicI32::new(0);
+
+pub fn fail_next_read_opens(n: u32, errno: i32) {
+    READ_OPEN_ERRNO.store(errno, std::sync::atomic::Ordering::SeqCst);
+    READ_OPEN_FAILS.store(n, std::sync::atomic::Ordering::SeqCst);
+}
+
+pub fn read_open_failures_left() -> u32 {
+    READ_OPEN_FAILS.load(std::sync::atomic::Ordering::SeqCst)
+}
+
+fn inject_read_open_failure() -> bool {
+    use std::sync::atomic::Ordering::SeqCst;
+    READ_OPEN_FAILS.fetch_update(SeqCst, SeqCst, |n| if n > 0 { Some(n - 1) } else { None }).is_ok()
 }
 
 // ---------------------------------------------------------------------------------------
